@@ -50,7 +50,8 @@ func (l *Line) Insert(pos int, chars ...rune) {
 
 	switch {
 	case l.Len() == 0:
-		*l = chars
+		// Copy: the caller keeps its slice (a kill buffer, for instance).
+		*l = append([]rune{}, chars...)
 	case pos < l.Len():
 		forward := string((*l)[pos:])
 		cut := string(append((*l)[:pos], chars...))
